@@ -47,6 +47,7 @@ def owners(sp):
 class VModel:
     def __init__(self):
         self.v = 0
+        self.w = 0          # length of the list w, which code extends in place
         self.old = {}
 
 
@@ -61,11 +62,12 @@ def expected(sp, r, vm):
                 body.append(('exit', sname))
                 if s.bump_exit:
                     vm.v += 2
+                    vm.w += 1
                 for j in s.post:
                     body.append(('cond', j, vm.v, vm.old.get(sname), None))
             if m.transition is not None:
                 t = sp.trans[tid(m.transition)]
-                oldt = vm.v
+                oldt = (vm.v, vm.w)
                 for j in t.pre:
                     body.append(('cond', j, vm.v, None, evm))
                 for j in t.inv:
@@ -73,18 +75,20 @@ def expected(sp, r, vm):
                 body.append(('act', t.i, evm))
                 if t.bump:
                     vm.v += 3
+                    vm.w += 1
                 for j in t.post:
                     body.append(('cond', j, vm.v, oldt, evm))
                 for j in t.inv:
                     body.append(('cond', j, vm.v, oldt, evm))
             for sname in m.entered_states:
                 s = sp.states[sname]
-                vm.old[sname] = vm.v
+                vm.old[sname] = (vm.v, vm.w)
                 for j in s.pre:
                     body.append(('cond', j, vm.v, None, None))
                 body.append(('entry', sname))
                 if s.bump_entry:
                     vm.v += 1
+                    vm.w += 1
     tail = {}
     for sname in r.post:
         s = sp.states[sname]
